@@ -2736,7 +2736,38 @@ fn exchange(out: &mut Out, rng: &mut Rng, thorough: bool) {
 				continue;
 			}
 		};
-		let t_tok = format!("T;{}", a_elems_s.join(";"));
+		// every second case the first party hands over a FINISHED transaction (build::transaction: its
+		// own kernel and a non-zero offset) instead of the partial one: same body, and the second party's
+		// transaction_with_kernel must ASSIGN its offset, not add to the one that is there
+		let finished = case % 2 == 0;
+		let tx0 = if finished {
+			let r = with_builder!(b, {
+				let mut el: Vec<Box<build::Append<ExtKeychain, _>>> = vec![];
+				for (v, id) in &a_ins {
+					el.push(build::input(*v, id.clone()));
+				}
+				for (v, id) in &a_outs {
+					el.push(build::output(*v, id.clone()));
+				}
+				build::transaction(KernelFeatures::Plain { fee: FeeFields::new(0, 7).unwrap() }, &el, &keychain, &b)
+			});
+			match r {
+				Ok(t) => {
+					if t.offset.is_zero() || t.inputs().len() != tx0.inputs().len() || t.outputs() != tx0.outputs() {
+						out.raw(&format!("#ORACLE-FAIL C20 exchange: build::transaction of the sender's elements has a zero offset or another body than partial_transaction, case {}", case));
+					}
+					t
+				}
+				Err(e) => {
+					out.raw(&format!("#ORACLE-FAIL C20 exchange: build::transaction of the sender's elements fails: {:?}", e));
+					continue;
+				}
+			}
+		} else {
+			tx0
+		};
+		*stat.entry(format!("initial tx={}", if finished { "finished (non-zero offset)" } else { "partial (zero offset)" })).or_insert(0) += 1;
+		let t_tok = format!("T;f:{};{}", hex(tx0.offset.as_ref()), a_elems_s.join(";"));
 		// ---- party B's list: initial_tx(tx0), with_excess(blind0), own inputs / outputs
 		let fee = rng.range(1, 500);
 		let n_b_in = if rng.chance(1, 3) { 1 } else { 0 };
@@ -2887,7 +2918,7 @@ fn exchange(out: &mut Out, rng: &mut Rng, thorough: bool) {
 					Ok(Ok((tx, sum))) => {
 						sums.insert(hex(sum.as_ref()));
 						let (bi, bo) = body_str(&tx);
-						format!("{} {} {}", hex(sum.as_ref()), bi, bo)
+						format!("{} {} {} {}", hex(sum.as_ref()), bi, bo, hex(tx.offset.as_ref()))
 					}
 					Ok(Err(_)) => "err".to_string(),
 					Err(_) => "panic".to_string(),
@@ -2944,7 +2975,7 @@ fn exchange(out: &mut Out, rng: &mut Rng, thorough: bool) {
 					Ok(Ok((tx, sum))) => {
 						base_sums.insert(hex(sum.as_ref()));
 						let (bi, bo) = body_str(&tx);
-						format!("{} {} {}", hex(sum.as_ref()), bi, bo)
+						format!("{} {} {} {}", hex(sum.as_ref()), bi, bo, hex(tx.offset.as_ref()))
 					}
 					Ok(Err(_)) => "err".to_string(),
 					Err(_) => "panic".to_string(),
@@ -2974,6 +3005,44 @@ fn exchange(out: &mut Out, rng: &mut Rng, thorough: bool) {
 // nonces: the rewind / private nonces of the three proof builders, byte for byte; Identifier from a
 // public key; BlindingFactor::from_slice / from_hex on slices of any length
 // ---------------------------------------------------------------------------------------------
+
+/// a `BIP32Hasher` that behaves like `BIP32GrinHasher` and records the HMAC key it was last
+/// initialised with and the bytes appended since
+#[derive(Clone)]
+struct RecHasher {
+	inner: grin_keychain::extkey_bip32::BIP32GrinHasher,
+	key: Vec<u8>,
+	data: Vec<u8>,
+}
+impl grin_keychain::extkey_bip32::BIP32Hasher for RecHasher {
+	fn network_priv(&self) -> [u8; 4] {
+		self.inner.network_priv()
+	}
+	fn network_pub(&self) -> [u8; 4] {
+		self.inner.network_pub()
+	}
+	fn master_seed() -> [u8; 12] {
+		grin_keychain::extkey_bip32::BIP32GrinHasher::master_seed()
+	}
+	fn init_sha512(&mut self, seed: &[u8]) {
+		self.key = seed.to_vec();
+		self.data.clear();
+		self.inner.init_sha512(seed)
+	}
+	fn append_sha512(&mut self, value: &[u8]) {
+		self.data.extend_from_slice(value);
+		self.inner.append_sha512(value)
+	}
+	fn result_sha512(&mut self) -> [u8; 64] {
+		self.inner.result_sha512()
+	}
+	fn sha_256(&self, input: &[u8]) -> [u8; 32] {
+		self.inner.sha_256(input)
+	}
+	fn ripemd_160(&self, input: &[u8]) -> [u8; 20] {
+		self.inner.ripemd_160(input)
+	}
+}
 
 fn nonces(out: &mut Out, rng: &mut Rng, thorough: bool) {
 	use grin_keychain::extkey_bip32::BIP32GrinHasher;
@@ -3205,6 +3274,51 @@ fn nonces(out: &mut Out, rng: &mut Rng, thorough: bool) {
 			for b in 0..words.len() {
 				let again = parent.ckd_priv(secp, &mut BIP32GrinHasher::new(true), ChildNumber::from(words[b])).unwrap().secret_key.0;
 				out.line(&format!("keys ckdsame {} {}", words[a], words[b]), if kids[a] == again { "same" } else { "differs" });
+			}
+		}
+	}
+	// what ckd_priv / ckd_pub / new_master feed the HMAC, observed with a recording hasher: key and
+	// message, for words around 2^31 and random ones, at several depths; and the child must be the
+	// one the plain hasher gives
+	{
+		use grin_keychain::extkey_bip32::{BIP32GrinHasher, BIP32Hasher, ExtendedPrivKey, ExtendedPubKey};
+		use grin_util::secp::key::PublicKey;
+		let secp = Secp256k1::with_caps(secp::ContextFlag::Commit);
+		let n_par = if thorough { 12 } else { 4 };
+		for pi in 0..n_par {
+			let seed = rng.bytes([16usize, 32, 64, 40][pi % 4]);
+			let mut rh = RecHasher { inner: BIP32GrinHasher::new(pi % 2 == 0), key: vec![], data: vec![] };
+			let master = ExtendedPrivKey::new_master(&secp, &mut rh, &seed).unwrap();
+			out.line(&format!("keys mastermsg {}", hex(&seed)), &format!("{} {}", hex(&rh.key), hex(&rh.data)));
+			// a parent at depth 0..3
+			let mut parent = master.clone();
+			for _ in 0..(pi % 4) {
+				parent = parent.ckd_priv(&secp, &mut BIP32GrinHasher::new(true), ChildNumber::from(rng.next() as u32)).unwrap();
+			}
+			let ppub = PublicKey::from_secret_key(&secp, &parent.secret_key).unwrap().serialize_vec(&secp, true).to_vec();
+			let xpub = ExtendedPubKey::from_private(&secp, &parent, &mut BIP32GrinHasher::new(true));
+			let mut words: Vec<u32> = vec![0, 1, 0x7fff_ffff, 0x8000_0000, 0x8000_0001, 0xffff_ffff];
+			for _ in 0..4 {
+				words.push(rng.next() as u32);
+			}
+			for w in words {
+				let cn = ChildNumber::from(w);
+				let args = format!("{} {} {} {}", w, hex(&parent.chain_code[..]), hex(&parent.secret_key.0), hex(&ppub));
+				let child = parent.ckd_priv(&secp, &mut rh, cn);
+				out.line(&format!("keys ckdmsg priv {}", args), &format!("{} {}", hex(&rh.key), hex(&rh.data)));
+				// the recording hasher changes nothing
+				let plain = parent.ckd_priv(&secp, &mut BIP32GrinHasher::new(true), cn);
+				if child.as_ref().ok().map(|c| c.secret_key.0) != plain.as_ref().ok().map(|c| c.secret_key.0) {
+					out.raw(&format!("#ORACLE-FAIL C20 nonces: ckd_priv with the recording hasher gives another child than with the plain one (word {})", w));
+				}
+				rh.key.clear();
+				rh.data.clear();
+				let r = xpub.ckd_pub(&secp, &mut rh, cn);
+				let s = match r {
+					Ok(_) => format!("{} {}", hex(&rh.key), hex(&rh.data)),
+					Err(_) => "err".to_string(),
+				};
+				out.line(&format!("keys ckdmsg pub {}", args), &s);
 			}
 		}
 	}
